@@ -421,7 +421,7 @@ pub fn strategy(g: &GenCfg) -> BoxedStrategy<Case> {
         2 => Just(K_BLOCKER),
         1 => Just(K_PARKTO),
     ];
-    let actor = (kind, gen::duration_ns(true), 0u8..2, 0u8..2, prop_oneof![2 => Just(0u64), 1 => 0u64..30_000_000], 0u8..3).prop_flat_map(|(kind, d, ctx, ev_ctx, start, same)| {
+    let actor = (kind.clone(), gen::duration_ns(true), 0u8..2, 0u8..2, prop_oneof![2 => Just(0u64), 1 => 0u64..30_000_000], 0u8..3).prop_flat_map(|(kind, d, ctx, ev_ctx, start, same)| {
         // the event: never / before the call / somewhere in [0, 2d] / at the deadline +- a bit
         let e = prop_oneof![
             3 => Just((u64::MAX, false)),
@@ -442,7 +442,25 @@ pub fn strategy(g: &GenCfg) -> BoxedStrategy<Case> {
         })
     });
     let g2 = g.clone();
-    (proptest::collection::vec(actor, 1..=5), gen::config(&g2), prop_oneof![2 => gen::schedule(&g2, false), 1 => gen::schedule(&g2, true)])
+    // template (one case in eight): X and Y share a duration (one interval list), X's wait is
+    // satisfied early so that its timer is removed while Y's is queued behind it, and a
+    // timer Z of another duration expires between X's and Y's expiry - Z must not be late
+    let g3 = g.clone();
+    let ev_kind = prop_oneof![Just(K_SEM), Just(K_MPSC), Just(K_FLAG), Just(K_BLOCKER), Just(K_PARKTO), Just(K_MPMC)];
+    let template = (ev_kind, kind.clone(), kind.clone(), (0u8..2, 0u8..2, 0u8..2, 0u8..2), prop_oneof![(2u64..30).prop_map(|ms| ms * 1_000_000), 2_000_000u64..30_000_000], (10u64..60, 5u64..95, 10u64..90))
+        .prop_flat_map(move |(kx, ky, kz, (cx, cy, cz, ec), d, (pe, ps, pz))| {
+            let s = d * ps / 100;
+            let mk = |kind: u8, d: u64, ctx: u8, e: u64, start: u64| {
+                let (dl, dh) = split(d);
+                let (el, eh) = split(e);
+                let (sl, sh) = split(start.min(d));
+                Actor { ctx, role: 0, ops: vec![Op(kind, dl, dh), Op(ec, el, eh), Op(START, sl, sh)] }
+            };
+            let actors = vec![mk(kx, d, cx, d * pe / 100, 0), mk(ky, d, cy, u64::MAX, s), mk(kz, d + s * pz / 100, cz, u64::MAX, 0)];
+            (Just(actors), gen::config(&g3), gen::schedule(&g3, false))
+        })
+        .prop_map(|(actors, (workers, pool, feat), sched)| Case { fam: "timed".into(), workers, pool, feat, cfg: vec![], actors, sched, weak: 0 });
+    let general = (proptest::collection::vec(actor, 1..=5), gen::config(&g2), prop_oneof![2 => gen::schedule(&g2, false), 1 => gen::schedule(&g2, true)])
         .prop_map(|(mut actors, (workers, pool, feat), sched)| {
             // several timers of the same duration (one interval list of the timer thread)
             for i in 1..actors.len() {
@@ -456,6 +474,6 @@ pub fn strategy(g: &GenCfg) -> BoxedStrategy<Case> {
             }
             actors[0].role = 0;
             Case { fam: "timed".into(), workers, pool, feat, cfg: vec![], actors, sched, weak: 0 }
-        })
-        .boxed()
+        });
+    prop_oneof![7 => general, 1 => template].boxed()
 }
